@@ -90,7 +90,28 @@ def check_shorthand(ctx, case):
     else:
         letter, pclass = T.letter_up(name[0], -(degree - 1)), (T.pc(name) - size) % 12
     sig = "from_shorthand/" + ("up" if up else "down")
+    # earlier questions that a careless memo could confuse with this one are asked first: the same pitch and letter under
+    # another spelling, and every named interval constructor on this very root
+    for other in (name + "#b", name + "b#", name + "#" * 12, name + "b" * 12):
+        try:
+            intervals.from_shorthand(other, sh, up)
+        except Exception:  # noqa - judged in that name's own case
+            pass
+    early = []
+    for order in (sorted(T.CONSTRUCTORS, reverse=True), sorted(T.CONSTRUCTORS)):
+        try:
+            intervals.from_shorthand("C" if name != "C" else "D", "2")  # a question on another root in between
+        except Exception:  # noqa
+            pass
+        for cname in order:
+            try:
+                getattr(intervals, cname)(name)
+            except Exception:  # noqa - C02's subject
+                pass
+        early.append(ctx.ok(sig, intervals.from_shorthand, name, sh, up))
     r = ctx.ok(sig, intervals.from_shorthand, name, sh, up)
+    ctx.check(failed(r) or all(failed(x) or x == r for x in early), sig + "/depends-on-earlier-constructor-calls",
+              lambda: "from_shorthand(%r, %r, %r) -> %r, after the named constructors on the same root %r" % (name, sh, up, r, early))
     # the direction given by keyword, and (upwards) left to its default, denote the same call
     rk = ctx.ok(sig, lambda: intervals.from_shorthand(name, sh, up=up))
     ctx.check(failed(r) or failed(rk) or rk == r, sig + "/keyword-form", lambda: "from_shorthand(%r, %r, up=%r) -> %r, positional %r" % (name, sh, up, rk, r))
